@@ -1,8 +1,9 @@
-(* Extract/Extract.v — extraction of the executable model (and spec) to OCaml.
+(* Extract/Extract.v — extraction of the executable model and spec to OCaml.
    ExtrOcamlBasic only: bool, option, unit, list, prod, sumbool, sumor map to OCaml's own types;
-   N / positive / nat stay the extracted inductive types. *)
+   N / positive / nat stay the extracted inductive types.
+   Run from driver/extracted (coqc writes the .ml files into the current directory). *)
 From Coq Require Import Extraction ExtrOcamlBasic.
-From MQ Require Import Model.Frontends.
+From MQ Require Import Model.Stream Spec.SpecParse.
 Extraction Language OCaml.
 Separate Extraction
-  Prelude Utf8 Reader VarInt Types Topic V3 Props V5 Poll Frontends.
+  Prelude Utf8 Reader VarInt Types Topic V3 Props V5 Poll Frontends Valid Stream SpecTopic SpecParse.
